@@ -7,11 +7,14 @@ run) and compares them with the library's automaton.  Proved here: shifting an i
 base and shifting it back is the identity (so the comparison loses nothing), the bases are the ones
 the four shells use (0 for bash and PowerShell arrays, 1 for fish and zsh), and reading back an
 emitted constant gives the original text for every string (C07's theorems, restated for the
-literal and description tables).  `decode_encode` over a Lean model of the emitters is open.
+literal and description tables).  And over a model of the shared table construction
+(`Model/Tables.lean`): `tables_embed_main`, `tables_embed_subwords` — the tables determine exactly the
+transitions of the automaton.  The text of the four emitters around the tables is not modelled.
 -/
 import Complgen.Proofs.Quote
 import Complgen.Gen.Chains
 import Complgen.Gen.Tables
+import Complgen.Proofs.Tables
 namespace Complgen.Props.C04
 open Complgen Complgen.Quote Complgen.Gen
 
@@ -31,5 +34,45 @@ theorem literal_tables_readable (s : List Char) :
     pwshDialect.decode (applyChain pwshChain s) = some s :=
   ⟨chain_roundtrip _ _ (by decide) s, chain_roundtrip _ _ (by decide) s,
    chain_roundtrip _ _ (by decide) s, chain_roundtrip _ _ (by decide) s⟩
+
+open Complgen.Tables in
+/-- **The tables embed exactly the automaton** (`Proofs/Tables.lean` over `Model/Tables.lean`, the model of
+tables.rs / the table getters of dfa.rs as the bash emitter uses them, compared with the tables of the
+real script on every run): the labelled transitions that can be read back from the tables of the
+main function — literal text, command text, within-word function number or any-word, with the `||`
+level recovered from the level tables — are exactly the transitions of the automaton.  The three
+side conditions say that one state never has two items with the same table id and different targets
+(C09's recorded finding is precisely a violation of the first). -/
+theorem tables_embed_main (d : Dfa) (out : Nat → List String)
+    (hL : ∀ q, LitDetAt d.main q) (hC : ∀ q, CmdDetAt d.main q) (hS : ∀ q, SubKDetAt d.main q)
+    (q : Nat) (lab : Label) (lv : Option Nat) (t : Nat) :
+    (q, lab, lv, t) ∈ transitionsOf (ofDfa d out).main (commands d) ↔
+      ∃ x, HasEdge d.main q x t ∧ labelOf (subIdOf (subOrder d.main)) x = some (lab, lv) :=
+  script_main_embeds d out hL hC hS q lab lv t
+
+open Complgen.Tables in
+/-- … and every within-word automaton the main automaton enters has a function number whose tables
+describe exactly its transitions -/
+theorem tables_embed_subwords (d : Dfa) (out : Nat → List String) {q0 k l0 t0 : Nat} {s : Auto}
+    (he : HasEdge d.main q0 (.sub k l0) t0) (hs : d.subs[k]? = some s)
+    (hL : ∀ q, LitDetAt s q) (hC : ∀ q, CmdDetAt s q) :
+    ∃ j, subIdOf (subOrder d.main) k = some j ∧
+      ∀ q lab lv t, (q, lab, lv, t) ∈ transitionsOf ((ofDfa d out).sub j) (commands d) ↔
+        ∃ x, HasEdge s q x t ∧ labelOf (fun _ => none) x = some (lab, lv) :=
+  script_sub_embeds d out he hs hL hC
+
+open Complgen.Tables in
+/-- the any-word table, with no side condition -/
+theorem tables_star (a : Auto) (cmds : List String) (subId : Nat → Option Nat) (q t : Nat) :
+    (q, t) ∈ (ofAuto a cmds subId).star ↔ HasEdge a q .star t :=
+  E2_star
+
+open Complgen.Tables in
+/-- the side condition is needed: one literal leaving a state at two `||` levels with two targets —
+the tables keep one target and describe a transition the automaton does not have -/
+theorem tables_need_determinism :
+    (0, Label.lit "a", some 0, 2) ∈ transitionsOf (ofAuto cexAuto [] fun _ => none) [] ∧
+    ¬ ∃ x, HasEdge cexAuto 0 x 2 ∧ labelOf (fun _ => none) x = some (Label.lit "a", some 0) :=
+  cex_E4_fails
 
 end Complgen.Props.C04
